@@ -1,8 +1,8 @@
 ----------------------------- MODULE MC_Context -----------------------------
 (* Bounded instance of Context.tla: two root parsers in one process,                                  *)
 (*   A  exit_on_error=False, --cfg/--print_config, sub-commands a (own --cfg/--print_config) and b,   *)
-(*      a class-typed argument with a link                                                            *)
-(*   B  exit_on_error=True,  --cfg/--print_config, no sub-commands                                    *)
+(*      a class-typed argument with a link, list defaults with nested containers / nested class specs *)
+(*   B  exit_on_error=True,  --cfg/--print_config, no sub-commands, a class-typed argument w/o default *)
 (* and a finite universe of public calls on them (every method of the property in its successful,     *)
 (* failing, help-printing and config-printing variants).  The residual state is finite, so TLC        *)
 (* explores histories of ANY length.                                                                  *)
@@ -19,13 +19,26 @@ DumpDK == "skip_none=True,skip_validation=False"
 
 O(id, m, p, kw, tag, items, sub, sitems, pre, sel, dumpf, late, ser) ==
   [id |-> id, m |-> m, p |-> p, eoe |-> (p = "B"), kw |-> kw, tag |-> tag, stag |-> tag, items |-> items, sub |-> sub, sitems |-> sitems,
-   pre |-> pre, sel |-> sel, dumpf |-> dumpf, late |-> late, ser |-> ser, dkv |-> DumpDK]
+   pre |-> pre, sel |-> sel, dumpf |-> dumpf, late |-> late, ser |-> ser, dkv |-> DumpDK, spec |-> "none"]
 PA(id, p, kw, items, sub, sitems) ==      \* parse_args; tag: coarse code of the argv (one code: finer codes only multiply Alg-level states; the traces use the real argv text)
   O(id, "parse_args", p, kw, "r", items, sub, sitems, "ok", sub, "none", "ok", FALSE)
 PO(id, m, p, pre, sel, dumpf, late) == O(id, m, p, "-", "-", << >>, "none", << >>, pre, sel, dumpf, late, FALSE)
+\* parse_string / parse_path of a class spec for the class-typed key `cls` (both parsers have one; A's has a default class,
+\* B's has none, so the short form - init_args without class_path - is rejected by a fresh B and, its init_args not fitting
+\* the default class, by a fresh A)
+SP(id, m, p, spec) == [PO(id, m, p, IF spec = "short" THEN "fail" ELSE "ok", "none", "none", "ok") EXCEPT !.spec = spec]
 NP(id, m, p, pre, ser) == O(id, m, p, "-", "-", << >>, "none", << >>, pre, "none", "none", "ok", ser)
 
 QuickOps == {
+  PA("A:sel,cfgbad",      "A", DefKW, <<"sel", "cfgbad">>, "none", << >>),        \* a config that fails INSIDE apply_config, after a class was selected
+  PA("A:sel,pc,cfg",      "A", DefKW, <<"sel", "pc", "cfg">>, "none", << >>),     \* --print_config before --cfg: SystemExit(0) leaves apply_config
+  PA("B:sel,cfgbad",      "B", DefKW, <<"sel", "cfgbad">>, "none", << >>),        \* exit_on_error=True: SystemExit(2) leaves apply_config
+  SP("A:str-spec",        "parse_string", "A", "full"),
+  SP("A:str-short",       "parse_string", "A", "short"),
+  SP("B:str-spec",        "parse_string", "B", "full"),
+  SP("B:str-short",       "parse_string", "B", "short"),
+  SP("A:path-spec",       "parse_path", "A", "full"),
+  SP("B:path-short",      "parse_path", "B", "short"),
   [PA("A:a/ok|nodef", "A", NoDefKW, << >>, "a", <<"ok">>) EXCEPT !.late = "fail"],     \* no --x: the link finds no source,
   PA("A:clshelp",         "A", DefKW, <<"clshelp">>, "none", << >>),
   PA("A:[]",              "A", DefKW, << >>, "none", << >>),
